@@ -601,6 +601,15 @@ func atomMatcher(atoms ...Atom) func(string, bool) bool {
 // If to==nil, the targets are function exits (Return instructions; Panic is
 // not counted as an exit). Returns a witness (block indices) when reachable.
 func reach(fn *ssa.Function, from ssa.Instruction, isTarget func(ssa.Instruction) bool, blockedI func(ssa.Instruction) bool, blockedE map[edge]bool) (bool, []int) {
+	return reachFrom(fn, from, nil, isTarget, blockedI, blockedE)
+}
+
+// reachAt starts at the first instruction of block b (inclusive).
+func reachAt(fn *ssa.Function, b *ssa.BasicBlock, isTarget func(ssa.Instruction) bool, blockedI func(ssa.Instruction) bool, blockedE map[edge]bool) (bool, []int) {
+	return reachFrom(fn, nil, b, isTarget, blockedI, blockedE)
+}
+
+func reachFrom(fn *ssa.Function, from ssa.Instruction, fromBlock *ssa.BasicBlock, isTarget func(ssa.Instruction) bool, blockedI func(ssa.Instruction) bool, blockedE map[edge]bool) (bool, []int) {
 	type state struct {
 		b   *ssa.BasicBlock
 		idx int
@@ -609,7 +618,9 @@ func reach(fn *ssa.Function, from ssa.Instruction, isTarget func(ssa.Instruction
 		return false, nil
 	}
 	var start state
-	if from == nil {
+	if fromBlock != nil {
+		start = state{fromBlock, 0}
+	} else if from == nil {
 		start = state{fn.Blocks[0], 0}
 	} else {
 		b := from.Block()
